@@ -2,7 +2,7 @@ package main
 
 // Generator of regular expressions inside the RE2 fragment modelled by
 // coq/model/Regex.v (literals, escapes \d \w \s \D \W \S and escaped punctuation,
-// '.', classes with ranges, groups, alternation, * + ? {n} {n,} {n,m}, ^ $), of
+// '.', classes with ranges, groups, alternation, * + ? {n} {n,} {n,m} and lazy forms, ^ $), of
 // texts that match / nearly match them, and of patterns Go's regexp refuses.
 
 import (
@@ -236,6 +236,9 @@ func genCat(r *vh.Rand, depth int) (rx, bool) {
 					q.op, q.lo, q.hi = fmt.Sprintf("{%d,%d}", lo, hi), lo, hi
 				}
 				c = true
+			}
+			if r.Chance(15) {
+				q.op += "?" // lazy: the same language
 			}
 			a = q
 		}
